@@ -13,6 +13,33 @@ code of one of the failed calls of `seg`.
 -/
 namespace SockModel.Fd
 
+/-- every program of the scenario set keeps the ledger (`Props/C14.lean`: `Prog.sp`) -/
+theorem Prog.keepsLedger (p : Prog) : Sp p.run (fun a new f => a = new ∧ f = false) := by
+  have hn : ∀ {m : M (List Fd)}, Sp m Nothing → Sp m (fun a new f => a = new ∧ f = false) :=
+    fun h => h.weaken (by intro a n f ⟨h1, h2, h3⟩; exact ⟨by rw [h1, h2], h3⟩)
+  cases p with
+  | addrCtor => exact hn Sp_addrCtor
+  | addrPrint => exact hn Sp_addrPrint
+  | udpCtor => exact Sp_udpCtor
+  | tcpCtor => exact Sp_tcpCtor
+  | acceptorCtor => exact Sp_acceptorCtor
+  | driverCtor => exact Sp_driverCtor
+  | udpSendTo fd => exact hn (Sp_udpSendTo fd)
+  | udpReceiveFrom fd => exact hn (Sp_udpReceiveFrom fd)
+  | tcpSend fd more => exact hn (Sp_tcpSend fd more)
+  | tcpReceive fd => exact hn (Sp_tcpReceive fd)
+  | query c fd => exact hn (Sp_query c fd)
+  | acceptorListen ready fd => exact Sp_acceptorListen ready fd
+  | driverStop fd => exact hn (Sp_driverStop fd)
+
+/-- (`Props/C14.lean`: `Consumer.consumes`) -/
+theorem Consumer.takesOver (c : Consumer) (fd : Fd) : Consumes fd (c.run fd) := by
+  cases c with
+  | buffered q => exact Consumes_bufferedCtor q fd
+  | tcpAsync => exact Consumes_tcpAsyncAttach fd
+  | acceptorAsync => exact Consumes_acceptorAsyncAttach fd
+  | udpAsync => exact Consumes_udpAsyncAttach fd
+
 def Ledger.bad (L : Ledger) : Bool := L.closedTwice || L.closedForeign
 
 def LogItem.fail? : LogItem → Option (Sys × Errno)
